@@ -538,4 +538,104 @@ theorem tinv_run (cfg : Cfg) (hfix : cfg.fixedInit = true) (ops : List Op) : TIn
         simpa [written, opRows, Table.step] using this
   simpa using key ops [] {} tinv_empty
 
+/-! ### the pinned (legacy) loop coincides with the repaired one away from the zero sentinels -/
+
+/-- what links the zero sentinels of the pinned loop to the explicit flags of the repaired one -/
+structure LegacyInv (st : InitSt) : Prop where
+  sid : st.started = true ↔ st.sidPrev ≠ 0
+  ts : st.cur = [] → st.tsPrev = 0
+
+theorem initStepLegacy_eq_fixed (cfg : Cfg) (st : InitSt) (r : Row) (hi : InitInv st) (hl : LegacyInv st)
+    (hs : r.sid ≠ 0) (ht : r.ts ≠ 0) :
+    initStepLegacy cfg st r = initStepFixed cfg st r ∧ LegacyInv (initStepFixed cfg st r) := by
+  have hsp : (if st.sidPrev = 0 then r.sid else st.sidPrev) = spOf st r := by
+    unfold spOf
+    by_cases h : st.started = true
+    · have := hl.sid.1 h
+      simp [h, this]
+    · have h0 : st.sidPrev = 0 := by
+        by_cases e : st.sidPrev = 0
+        · exact e
+        · exact absurd (hl.sid.2 e) h
+      simp [h, h0]
+  have hcond : (r.sid = spOf st r ∧ st.tsPrev = r.ts) ↔ (r.sid = spOf st r ∧ st.cur ≠ [] ∧ st.tsPrev = r.ts) := by
+    constructor
+    · rintro ⟨h1, h2⟩
+      refine ⟨h1, ?_, h2⟩
+      intro hc
+      have := hl.ts hc
+      rw [this] at h2
+      exact ht h2.symm
+    · rintro ⟨h1, _, h3⟩; exact ⟨h1, h3⟩
+  have heq : initStepLegacy cfg st r = initStepFixed cfg st r := by
+    unfold initStepLegacy initStepFixed
+    simp only []
+    rw [hsp]
+    have : (if st.started = true then st.sidPrev else r.sid) = spOf st r := rfl
+    rw [this]
+    by_cases hc : r.sid = spOf st r ∧ st.tsPrev = r.ts
+    · rw [if_pos hc, if_pos (hcond.1 hc)]
+    · rw [if_neg hc, if_neg (fun h => hc (hcond.2 h))]
+  refine ⟨heq, ?_⟩
+  by_cases hskip : r.sid = spOf st r ∧ st.cur ≠ [] ∧ st.tsPrev = r.ts
+  · rw [initStepFixed_skip cfg st r hskip]
+    have hst := hi.started.2 hskip.2.1
+    have : spOf st r = st.sidPrev := by simp [spOf, hst]
+    refine ⟨?_, ?_⟩
+    · simp only [this]; exact hl.sid
+    · intro hc; exact absurd hc hskip.2.1
+  · by_cases hsplit : st.size ≥ cfg.maxSize ∨ st.cur.length > cfg.maxLen ∨ r.sid ≠ spOf st r
+    · rw [initStepFixed_split cfg st r hskip hsplit]
+      unfold stSplit
+      exact ⟨by simp [hs], by simp⟩
+    · rw [initStepFixed_app cfg st r hskip hsplit]
+      unfold stApp
+      have hsid : r.sid = spOf st r := by
+        by_cases h : r.sid = spOf st r
+        · exact h
+        · exact absurd (Or.inr (Or.inr h)) hsplit
+      refine ⟨?_, by simp⟩
+      simp only [true_iff]
+      rw [← hsid]; exact hs
+
+theorem initFold_legacy_eq (cfg : Cfg) : ∀ (rest : List Row) (st : InitSt), InitInv st → LegacyInv st →
+    DpSorted rest → (∀ x ∈ st.cur, ∀ y ∈ rest, dpLess y x = false) → (∀ r ∈ rest, r.sid ≠ 0 ∧ r.ts ≠ 0) →
+    rest.foldl (initStepLegacy cfg) st = rest.foldl (initStepFixed cfg) st := by
+  intro rest
+  induction rest with
+  | nil => intros; rfl
+  | cons r rest ih =>
+    intro st hi hl hs hcur hnz
+    simp only [List.foldl_cons]
+    have hr := hnz r List.mem_cons_self
+    obtain ⟨heq, hl'⟩ := initStepLegacy_eq_fixed cfg st r hi hl hr.1 hr.2
+    rw [heq]
+    unfold DpSorted at hs
+    rw [List.pairwise_cons] at hs
+    obtain ⟨hi', hcase⟩ := initStepFixed_spec cfg st r hi (fun x hx => hcur x hx r List.mem_cons_self)
+    refine ih _ hi' hl' hs.2 ?_ (fun x hx => hnz x (List.mem_cons_of_mem _ hx))
+    intro x hx y hy
+    rcases hcase with ⟨l, _, _, hsame⟩ | ⟨_, _, hmem, _⟩
+    · rw [hsame] at hx; exact hcur x hx y (List.mem_cons_of_mem _ hy)
+    · rcases hmem x hx with rfl | hx
+      · exact hs.1 y hy
+      · exact hcur x hx y (List.mem_cons_of_mem _ hy)
+
+/-- the pinned loop is correct as long as no series id and no timestamp is 0 -/
+theorem initFromSorted_legacy_spec (cfg : Cfg) (hleg : cfg.fixedInit = false) (batch sorted : List Row)
+    (hperm : sorted.Perm batch) (hs : DpSorted sorted) (hnz : ∀ r ∈ batch, r.sid ≠ 0 ∧ r.ts ≠ 0) :
+    IsResolution batch (rowsOf (initFromSorted cfg sorted)) := by
+  have hnz' : ∀ r ∈ sorted, r.sid ≠ 0 ∧ r.ts ≠ 0 := fun r hr => hnz r (hperm.mem_iff.1 hr)
+  have hfold := initFold_legacy_eq cfg sorted {} initInv_init ⟨by simp, by simp⟩ hs (fun x hx => by simp at hx) hnz'
+  have hstep : initStep cfg = initStepLegacy cfg := by unfold initStep; rw [hleg]; simp
+  have h1 : initFromSorted cfg sorted = initFromSorted { cfg with fixedInit := true } sorted := by
+    unfold initFromSorted
+    rw [hstep]
+    have : initStep { cfg with fixedInit := true } = initStepFixed cfg := by
+      unfold initStep; simp only [if_true]; rfl
+    rw [this, hfold]
+  rw [h1]
+  exact (initFromSorted_spec { cfg with fixedInit := true } rfl batch sorted hperm hs).1
+
+
 end Banyan.Store
